@@ -209,8 +209,8 @@ def run_edges(uni, states, opset, max_pc, rng, limit):
     pre = base.project()
     steps = []
     smeta = []
-    for op in ops:
-      w = World(uni, S)
+    for oi, op in enumerate(ops):
+      w = World(uni, S, alt=1 if (si + oi) % 5 == 2 else 0, blink=((si + oi) % 4 == 1))
       ok = w.apply(op)
       post = w.project()
       st = {"op": op, "ok": ok, "same": post == pre}
@@ -322,8 +322,10 @@ def plausible_op(uni, w, S, rng, catalogue):
 def run_histories(uni, catalogue, rng, count, length, start=None):
   recs = []
   meta = []
-  for _ in range(count):
-    w = World(uni, start(uni, rng) if start else None, catalogue)
+  for hno in range(count):
+    # one history in five in the caller's alternative process context; one in four with the harness letting go of parentless
+    # trees between calls (modelu.World)
+    w = World(uni, start(uni, rng) if start else None, catalogue, alt=1 if hno % 5 == 2 else 0, blink=(hno % 4 == 1))
     pre = w.project()
     S0 = pre
     steps = []
